@@ -13,7 +13,9 @@ K_FLAG = "oneshot_flag_sticks_after_restart"
 K_RESET = "resethand_window_disposition_default"
 K_STALE = "stale_signal_after_same_signum_restart"
 K_ONE0 = "oneshot_stopped_without_callback"
+K_ONECB = "oneshot_restart_inside_callback_stopped"
 FIXED = os.environ.get("VERIF_C13_FIXED", "1") == "1"   # compare against the model variant with the flag fix
+STALEFIX = os.environ.get("VERIF_C13_STALEFIX", "0") == "1"   # model variant fs: one-shot stop only after the callback
 
 
 # --------------------------------------------------------------------------
@@ -221,8 +223,12 @@ class Mon:
                              "handle %d started with uv_signal_start was stopped by libuv after %d callback(s)"
                              % (h, self.cbs[h]))
                 elif self.cbs[h] == 0:
-                    self.bad(K_ONE0 if (self.old_at_start[h] > 0 or self.in_own_cb_start[h]) else None,
-                             "one-shot handle %d was stopped without a callback" % h)
+                    if self.in_own_cb_start[h]:
+                        self.bad(K_ONECB, "one-shot handle %d restarted inside its own one-shot callback was stopped "
+                                          "when that callback returned, without a callback" % h)
+                    else:
+                        self.bad(K_ONE0 if self.old_at_start[h] > 0 else None,
+                                 "one-shot handle %d was stopped without a callback" % h)
                 else:
                     self.bad(None, "one-shot handle %d stopped outside its callback" % h)
                 self.end_session(h)
@@ -389,7 +395,7 @@ def main():
     except vf.BuildError as e:
         chk.violation("build failed: %s" % str(e)[:300], {"kind": "build", "log": str(e)}, found_input=False)
         chk.finish(rule="build failed")
-    mcmd = [model, "fixed"] if FIXED else [model]
+    mcmd = [model] + (["fixed"] if FIXED else []) + (["stalefix"] if STALEFIX else [])
 
     cdir = os.path.join(vf.VERIF, "corpus", "C13")
 
@@ -448,7 +454,7 @@ def main():
     chk.corr(name, len(cases))
     chk.cov["signal_callbacks_observed"] = ncb
     chk.cov["monitor_findings"] = reported
-    chk.cov["model_variant"] = "fixed" if FIXED else "current"
+    chk.cov["model_variant"] = {"flag_fix(fx)": FIXED, "stale_stop_fix(fs)": STALEFIX}
     if cases:
         chk.sample({"case": cases[min(len(cases) - 1, 40)], "impl": a[min(len(cases) - 1, 40)]})
     chk.finish(
